@@ -3,6 +3,7 @@ package icc
 import (
 	"fmt"
 	"github.com/mandykoh/prism/meta/binary"
+	"io"
 	"time"
 )
 
@@ -180,12 +181,12 @@ func (pr *ProfileReader) readHeader(header *Header) error {
 	}
 	header.ProfileCreator = Signature(value)
 
-	bytesRead, err := pr.reader.Read(header.ProfileID[:])
+	_, err = io.ReadFull(pr.reader, header.ProfileID[:])
 	if err != nil {
+		if err == io.EOF || err == io.ErrUnexpectedEOF {
+			return fmt.Errorf("unexpected EOF when reading profile ID")
+		}
 		return err
-	}
-	if bytesRead < len(header.ProfileID) {
-		return fmt.Errorf("unexpected EOF when reading profile ID")
 	}
 
 	// 28 reserved bytes
@@ -241,12 +242,12 @@ func (pr *ProfileReader) readTagTable(tagTable *TagTable) error {
 
 	tagDataOffset := tagTableOffset + 4 + (tagCount * 12)
 	tagData := make([]byte, endOfTagData-tagDataOffset)
-	bytesRead, err := pr.reader.Read(tagData)
+	bytesRead, err := io.ReadFull(pr.reader, tagData)
 	if err != nil {
+		if err == io.EOF || err == io.ErrUnexpectedEOF {
+			return fmt.Errorf("expected %d bytes of tag data but only got %d", len(tagData), bytesRead)
+		}
 		return err
-	}
-	if bytesRead < len(tagData) {
-		return fmt.Errorf("expected %d bytes of tag data but only got %d", len(tagData), bytesRead)
 	}
 
 	for sig, entry := range tagIndex {
